@@ -59,7 +59,8 @@ theorem negotiate_msgSize (o t : OpenMsg) :
 
 theorem negotiate_hold (o t : OpenMsg) : (negotiate o t).hold = min o.hold t.hold := rfl
 
-theorem negotiate_localAs (o t : OpenMsg) : (negotiate o t).localAs = o.myAs := rfl
+theorem negotiate_localAs (o t : OpenMsg) : (negotiate o t).localAs = (asn4Of o.caps).getD o.myAs := by
+  simp only [negotiate, negotiateSets, capSet_asn4]
 
 theorem negotiate_peerAs (o t : OpenMsg) :
     (negotiate o t).peerAs =
